@@ -104,6 +104,55 @@ pub fn run(tier: Tier, seed: u64, replay: Option<&str>) -> i32 {
         }
     }
     subs.insert("C09".into(), c09);
+    // public helpers outside the store (hashes, AlignedBuffer, apply_json_patch) with inputs whose
+    // neighbourhood is poisoned (exact heap allocations) or inaccessible (guard pages): child of
+    // this instrumented binary, the case about to run is journaled
+    let journal = dir.join("c20u-journal.json");
+    let out = Command::new(&exe)
+        .args(["C20U", "--tier", tier.name()])
+        .env("FXV_C20U_JOURNAL", &journal)
+        .env("VERIF_SEED", seed.to_string())
+        .env("ASAN_OPTIONS", format!("detect_leaks=0:abort_on_error=1:log_path={}/asan-C20U", dir.display()))
+        .stdout(Stdio::piped())
+        .stderr(Stdio::null())
+        .output();
+    let mut util = json!({"ran": false});
+    if let Ok(o) = out {
+        let text = String::from_utf8_lossy(&o.stdout).to_string();
+        if let Some(l) = text.lines().find(|l| l.starts_with("C20U-SUMMARY ")) {
+            util = serde_json::from_str(&l["C20U-SUMMARY ".len()..]).unwrap_or_default();
+            let n = util["executions"].as_u64().unwrap_or(0);
+            ev.evaluations += n;
+            for i in 0..util["keys_with_a_partial_last_16_byte_block"].as_u64().unwrap_or(0).min(5000) {
+                ev.nontrivial.insert(0xC20E_0000 + i);
+            }
+        }
+        util["rule"] = json!("proptest-generated inputs for the safe public helpers outside the store - utils::hash::{hash_key, murmur3_32, simd::hash_key_aes_safe, MurmurHasher} on keys of 0-5000 bytes (lengths around multiples of 16) held in exactly sized heap allocations, at generated offsets inside larger ones, and ending on the last byte of a page whose successor is PROT_NONE; utils::allocator::AlignedBuffer (capacity 0-20000, set_len within capacity, write/read-back, clear, drop); utils::json_patch::apply_json_patch on exactly sized documents and patches - executed in a child of the AddressSanitizer build. Oracle: no sanitizer report, no signal, a hash depends on the bytes only (equal for every placement), buffer accounting returns to its baseline, patch results equal the reference application. Non-trivial: a key whose length is not a multiple of 16.");
+        let mut reports = Vec::new();
+        if let Ok(rd) = std::fs::read_dir(&dir) {
+            for e in rd.flatten() {
+                if e.file_name().to_string_lossy().starts_with("asan-C20U") {
+                    reports.push(std::fs::read_to_string(e.path()).unwrap_or_default());
+                }
+            }
+        }
+        let abnormal = o.status.code().is_none() || !reports.is_empty();
+        let functional = o.status.code() == Some(1);
+        if abnormal || functional {
+            let case: serde_json::Value = if functional { util["failure"]["case"].clone() } else { std::fs::read_to_string(&journal).ok().and_then(|t| serde_json::from_str(&t).ok()).unwrap_or_default() };
+            let head: String = reports.first().map(|r| r.lines().take(60).collect::<Vec<_>>().join("\n")).unwrap_or_else(|| if functional { util["failure"]["message"].as_str().unwrap_or("oracle mismatch").to_string() } else { format!("the public-utility stage ended abnormally: {:?}", o.status) });
+            let sig = if abnormal { "asan-report" } else { "public-utility-oracle" };
+            let doc = json!({"property": "C20", "engine": "public_utilities", "signature": sig, "message": head.lines().find(|l| l.contains("AddressSanitizer")).unwrap_or(head.lines().next().unwrap_or("abnormal termination")), "campaign": "C20U", "seed": seed, "report": head, "case": case});
+            if !env::report_violation("C20", sig, &doc) {
+                code = 1;
+                ev.violations += 1;
+                eprintln!("fxv: C20 (public utilities): {}", doc["message"].as_str().unwrap_or(""));
+            }
+        } else if o.status.code() != Some(0) && code == 0 {
+            code = 2;
+        }
+    }
+    subs.insert("public_utilities".into(), util);
     // slow-device stage ("a buffer the kernel may still be writing from"): AddressSanitizer does not
     // see reads done by the kernel and its quarantine would hide the reuse, so this stage runs in
     // the uninstrumented binary that ./check builds next to this one
